@@ -550,43 +550,42 @@ func vaEndWrite(err error, wantMode int) {
 }
 
 // vaRun: the history.  write(data) is the operation under test on vaTarget.
+// Every write but the last runs with faults and crashes injected; each next
+// write is a fresh process on exactly what its predecessors left behind.  The
+// last write runs with faults if faultslast != 0 (a crash in it is covered by
+// the invariant asserted after every step).
 func vaRun(write func(data []byte) error, wantMode int) {
-	maxLen := vParam("maxlen", 2)
+	maxLen := vParam("maxlen", 1)
 	writes := vParam("writes", 2)
-	faults2 := vParam("faults2", 0) != 0
+	faultsLast := vParam("faultslast", 0) != 0
 	vaw = &vaWorld{files: map[string]*vaFile{}, target: vaTarget}
 	w := vaw
 	if vBool() {
 		old := vBytes(vRange(0, maxLen))
 		w.files[w.target] = &vaFile{content: vaClone(old), mode: 0600}
 	}
-
-	new1 := vBytes(vRange(0, maxLen))
-	vaBeginWrite(new1, true, writes > 1 || vParam("crash1", 0) != 0)
-	err := write(vaClone(new1))
-	vaEndWrite(err, wantMode)
-	if writes < 2 {
-		return
-	}
-	crashed1 := w.crashed
-	if crashed1 {
-		vNote("write 1 crashed after " + string(rune('0'+w.steps)) + " completed steps")
-	} else if err != nil {
-		vNote("write 1 failed")
-	} else {
-		vNote("write 1 succeeded")
-	}
-
-	// a later write by a fresh process on whatever write 1 left behind
-	new2 := vBytes(vRange(0, maxLen))
-	vaBeginWrite(new2, faults2, false)
-	err = write(vaClone(new2))
-	vaEndWrite(err, wantMode)
-	if err == nil {
-		if crashed1 {
-			vCover("success-after-crash")
+	afterCrash := false
+	for i := 1; i <= writes; i++ {
+		content := vBytes(vRange(0, maxLen))
+		last := i == writes
+		vaBeginWrite(content, !last || faultsLast || writes == 1, !last)
+		err := write(vaClone(content))
+		vaEndWrite(err, wantMode)
+		nr := string(rune('0' + i))
+		if w.crashed {
+			vNote("write " + nr + " crashed after " + string(rune('0'+w.steps)) + " completed model steps")
+			afterCrash = true
+		} else if err != nil {
+			vNote("write " + nr + " failed")
 		} else {
-			vCover("second-write-success")
+			vNote("write " + nr + " succeeded")
+			if i > 1 {
+				if afterCrash {
+					vCover("success-after-crash")
+				} else {
+					vCover("success-after-write")
+				}
+			}
 		}
 	}
 }
